@@ -20,7 +20,7 @@ import json, os, re, sys
 
 ROOT = os.path.normpath(os.path.join(os.path.dirname(os.path.abspath(__file__)), ".."))
 REPO = os.environ.get("VERIF_REPO", "/repo")
-OUT = os.path.join(ROOT, "lean", "MiniMoka", "MiniMoka", "Gen", "Logic")
+OUT = os.environ.get("VERIF_LOGIC_OUT") or os.path.join(ROOT, "lean", "MiniMoka", "MiniMoka", "Gen", "Logic")
 
 
 class Unsupported(Exception):
@@ -125,12 +125,23 @@ class P:
                 ps.append(self.pattern())
             self.eat(")")
             return ("ptuple", ps)
+        if self.at("&"):
+            self.eat("&")
+            return self.pattern()
         name = self.eat(kind="id")
         if name == "Some":
             self.eat("(")
             inner = self.pattern()
             self.eat(")")
             return ("psome", inner)
+        if name == "None":
+            return ("pnone",)
+        if name == "_":
+            return ("pwild",)
+        if name in ("true", "false"):
+            return ("pbool", name == "true")
+        if name in ("ref", "mut"):
+            return self.pattern()
         return ("pvar", name)
 
     def type_(self):
@@ -220,6 +231,25 @@ class P:
             return ("closure", params, self.expr())
         if v == "if":
             return self.if_()
+        if v == "match" and k == "id":
+            self.eat("match")
+            scrut = self.expr(no_struct=True)
+            self.eat("{")
+            arms = []
+            while not self.at("}"):
+                pat = self.pattern()
+                if self.at("if"):
+                    raise Unsupported("match guard")
+                self.eat("=>")
+                if self.at("{") and self.peek()[0] == "op":
+                    body = ("block", self.block())
+                else:
+                    body = self.expr()
+                if self.at(","):
+                    self.eat(",")
+                arms.append((pat, body))
+            self.eat("}")
+            return ("match", scrut, arms)
         if v == "{" and k == "op":
             return ("block", self.block())
         if k == "id":
@@ -289,9 +319,11 @@ class Tr:
     """dialect 'nat': every integer is an unbounded Nat (the models' convention: counters far
     below 2^64, clock readings far below the Instant range); 'u64': wrapping UInt64."""
 
-    def __init__(self, dialect, env):
+    def __init__(self, dialect, env, src=None, depth=0):
         self.d = dialect
         self.env = dict(env)         # let-bound variables -> AST
+        self.src = src               # text of the file (comments stripped): private helpers are inlined
+        self.depth = depth
 
     # -- partial evaluation helpers
     def is_false(self, e):
@@ -360,16 +392,132 @@ class Tr:
             return self.block(e[1], None)
         if k == "mcall":
             return self.mcall(e)
+        if k == "lean":
+            return e[1]
+        if k == "match":
+            return self.match_(e, None)
         if k == "field":
             raise Unsupported(f"field access .{e[2]} (not in the substitution table)")
         if k == "call":
+            name = None
+            if e[1][0] == "var":
+                name = e[1][1]
+            elif e[1][0] == "path" and len(e[1][1]) == 2 and e[1][1][0] == "Self":
+                name = e[1][1][1]
+            if name is not None:
+                return self.inline(name, e[2])
             raise Unsupported("call of " + json.dumps(e[1])[:40])
         raise Unsupported("expression " + k)
+
+    def pat_lean(self, pat, top=True):
+        k = pat[0]
+        if k == "psome":
+            t = f"some {self.pat_lean(pat[1], False)}"
+            return t if top else f"({t})"
+        if k == "pnone":
+            return "none"
+        if k == "pwild":
+            return "_"
+        if k == "pvar":
+            return pat[1]
+        if k == "pbool":
+            return "true" if pat[1] else "false"
+        raise Unsupported("pattern " + json.dumps(pat)[:60])
+
+    @staticmethod
+    def pat_vars(pat):
+        if pat[0] == "pvar":
+            return [pat[1]]
+        if pat[0] == "psome":
+            return Tr.pat_vars(pat[1])
+        if pat[0] == "ptuple":
+            return [v for q in pat[1] for v in Tr.pat_vars(q)]
+        return []
+
+    def value(self, body, k):
+        if body[0] == "block":
+            return self.block(body[1], k)
+        if body[0] == "macro" and body[1] in ("panic", "unreachable"):
+            raise Unsupported("reachable " + body[1] + "! in a match arm")
+        return self.expr(self.simp(body))
+
+    def match_(self, e, k):
+        """`match` on an Option, a tuple of Options or a boolean; a scrutinee known to be `Some`
+        (a let-bound `checked_add`) selects its arm."""
+        _, scrut, arms = e
+        sc = self.simp(scrut)
+        if sc[0] == "some":
+            for pat, body in arms:
+                if pat[0] == "psome" and pat[1][0] == "pvar":
+                    saved = dict(self.env)
+                    self.env[pat[1][1]] = sc[1]
+                    try:
+                        return self.value(body, k)
+                    finally:
+                        self.env = saved
+                if pat[0] in ("pwild", "pvar"):
+                    return self.value(body, k)
+            raise Unsupported("no arm for a known Some")
+        if sc[0] == "tuple":
+            scr, n = ", ".join(self.expr(x) for x in sc[1]), len(sc[1])
+        else:
+            scr, n = self.expr(sc), 1
+        out = []
+        for pat, body in arms:
+            if n > 1:
+                if pat[0] == "ptuple" and len(pat[1]) == n:
+                    ps = ", ".join(self.pat_lean(q) for q in pat[1])
+                elif pat[0] == "pwild":
+                    ps = ", ".join("_" for _ in range(n))
+                else:
+                    raise Unsupported("pattern " + json.dumps(pat)[:60])
+            else:
+                ps = self.pat_lean(pat)
+            saved = dict(self.env)
+            for v in self.pat_vars(pat):
+                self.env.pop(v, None)
+            try:
+                out.append(f"| {ps} => {self.value(body, k)}")
+            finally:
+                self.env = saved
+        return f"(match {scr} with {' '.join(out)})"
+
+    def inline(self, name, args):
+        """A call of a private helper of the same file: its body with the arguments bound."""
+        if self.src is None or self.depth > 3:
+            raise Unsupported("call of " + name)
+        m = re.search(r"\bfn\s+" + re.escape(name) + r"\s*(<[^>]*>)?\s*\(", self.src)
+        if not m:
+            raise Unsupported("call of " + name + " (no such fn in this file)")
+        j = _sig_end(self.src, m.end())
+        sig = self.src[m.end():j - 1]
+        params, depth, cur = [], 0, ""
+        for ch in sig:
+            if ch in "<([":
+                depth += 1
+            elif ch in ">)]":
+                depth -= 1
+            if ch == "," and depth == 0:
+                params.append(cur)
+                cur = ""
+            else:
+                cur += ch
+        if cur.strip():
+            params.append(cur)
+        names = [q.split(":")[0].strip().replace("mut ", "") for q in params]
+        names = [q for q in names if q not in ("&self", "self", "&mut self")]
+        if len(names) != len(args):
+            raise Unsupported(f"call of {name}: {len(args)} arguments for {len(names)} parameters")
+        body = re.sub(r"\s+", " ", fn_body(self.src, name))
+        env = {q: ("lean", self.expr(self.simp(a))) for q, a in zip(names, args)}
+        return Tr(self.d, env, self.src, self.depth + 1).block(P(lex(body)).block(), None)
 
     def simp(self, e):
         """Resolve let-bound Option values: `x.is_none()`, `x.unwrap()` on a known `Some`."""
         if e[0] == "var" and e[1] in self.env:
             return self.simp(self.env[e[1]])
+        if e[0] == "tuple":
+            return ("tuple", [self.simp(x) for x in e[1]])
         if e[0] == "mcall":
             recv = self.simp(e[1])
             if e[2] == "checked_add" and self.d == "nat":
@@ -390,6 +538,9 @@ class Tr:
         if e[0] != "mcall":
             return self.expr(e)
         recv, name, args = e[1], e[2], e[3]
+        if recv == ("var", "self") and self.src is not None and \
+                re.search(r"\bfn\s+" + re.escape(name) + r"\b", self.src):
+            return self.inline(name, args)
         # opt.map(|x| body).unwrap_or(d) / .unwrap_or_default()
         if name in ("unwrap_or", "unwrap_or_default") and recv[0] == "mcall" and recv[2] == "map" \
                 and recv[3] and recv[3][0][0] == "closure":
@@ -743,6 +894,7 @@ EXTRA_IMPORTS = {"SketchBits": "import MiniMoka.SketchWord\n"}
 
 def translate_site(site):
     group, lname, rel, fn, nth, mode, params, result, dialect, subs = site[:10]
+    src_text = re.sub(r"//[^\n]*", "", read(rel))
     body = fn_body(read(rel), fn, nth)
     body = re.sub(r"//[^\n]*", "", body)
     text = substitute(body, subs)
@@ -751,11 +903,11 @@ def translate_site(site):
         if not m:
             raise Unsupported(f"anchor not found in fn {fn}: {site[10]}")
         ast = P(lex(m.group("e"))).expr()
-        lean = Tr(dialect, {}).expr(Tr(dialect, {}).simp(ast))
+        lean = Tr(dialect, {}, src_text).expr(Tr(dialect, {}, src_text).simp(ast))
         shown = m.group("e").strip()
     else:
         stmts = P(lex(text)).block()
-        lean = Tr(dialect, {}).block(stmts, None)
+        lean = Tr(dialect, {}, src_text).block(stmts, None)
         shown = text.strip()
     sig = " ".join(f"({n} : {t})" for n, t in params)
     doc = f"/-- `{rel}`, fn `{fn}`: `{shown[:300]}` -/"
